@@ -184,6 +184,7 @@ pub fn hist(args: &Args) -> Report {
         items.push(isolated(format!("hist-{sh}"), move || {
             let mut r = Report::new();
             let mut w = World::new(dl);
+            let mut nhist = 0usize;
             for (fi, p) in &work {
                 let (al, depth) = &fams[*fi];
                 for_each_history(p, *depth, al, &mut |h| {
@@ -191,6 +192,13 @@ pub fn hist(args: &Args) -> Report {
                     r.nontrivial_unique();
                     let c = Case::plain("hist", h.to_vec());
                     run_case(&mut w, &c, &mut r, false);
+                    // first family: also in an aged heap (countdown expires on the next / second tree-binned free)
+                    if *fi == 0 && h[1..].iter().any(|o| matches!(o, Op::Free { .. } | Op::Realloc { .. })) {
+                        nhist += 1;
+                        for v in [1u64, 2] {
+                            run_with_countdown(&mut w, &c, 1, v, nhist % 160 == 0, false, &mut r);
+                        }
+                    }
                 });
             }
             if sh == 0 {
@@ -497,6 +505,8 @@ pub fn boundary_cases(thorough: bool) -> Vec<Case> {
                         loop_ops: vec![],
                         loop_max: 0,
                         post: vec![],
+                        countdown: None,
+                        countdown_brute: false,
                     });
                 }
             }
@@ -613,6 +623,8 @@ pub fn multiseg_cases(th: bool) -> Vec<Case> {
                         loop_ops,
                         loop_max,
                         post,
+                        countdown: None,
+                        countdown_brute: false,
                     };
                     let m = |size| Op::Malloc { size, align: 8 };
                     v.push(mk(vec![], 0, vec![m(3 * MIB), Op::Free { slot: 0 }, m(1000), m(300_000), Op::Free { slot: 0 }, Op::Free { slot: 1 }]));
@@ -861,12 +873,50 @@ pub fn junction_cases(th: bool) -> Vec<(String, Case)> {
                         loop_ops: vec![],
                         loop_max: 0,
                         post: vec![],
+                        countdown: None,
+                        countdown_brute: false,
                     },
                 ));
             }
         }
     }
     out
+}
+
+/// Run `c` with the allocator's release_checks countdown preset to `value` before operation `at`; every
+/// `validate_every`-th call also really ages the heap instead (brute force) and compares what every later
+/// operation returned and which kernel calls it made.  `strict`: a difference is a harness error.
+pub fn run_with_countdown(w: &mut World, c: &Case, at: usize, value: u64, validate: bool, strict: bool, r: &mut Report) -> RunInfo {
+    let mut c2 = c.clone();
+    c2.countdown = Some((at, value));
+    r.eval();
+    let info = run_case(w, &c2, r, false);
+    if info.countdown_applied {
+        r.nontrivial_unique();
+        r.outcome(&format!("countdown-preset-to-{value}"));
+    } else {
+        r.outcome("countdown-preset:not-applicable(counter-already-lower-or-word-not-found)");
+    }
+    if validate && info.countdown_applied && !info.violated {
+        let mut c3 = c2.clone();
+        c3.countdown_brute = true;
+        let mut scratch = Report::new();
+        let b = run_case(w, &c3, &mut scratch, false);
+        if !b.countdown_applied {
+            r.outcome("countdown-preset:brute-force-loop-could-not-reach-the-value");
+        } else if b.trace == info.trace && !b.violated {
+            r.traces_validated += 1;
+        } else if strict {
+            r.violation(
+                "C03:countdown-preset:differs-from-brute-force",
+                format!("HARNESS ASSUMPTION BROKEN: writing the release_checks word and really performing the frees give different runs for {}", c2.to_json()),
+                c2.to_json(),
+            );
+        } else {
+            r.outcome("countdown-preset:brute-force-run-differs(the ageing loop itself touched the free lists)");
+        }
+    }
+    info
 }
 
 pub fn placement(args: &Args) -> Report {
@@ -923,6 +973,17 @@ pub fn placement(args: &Args) -> Report {
                 if i % 499 == 0 {
                     r.sample(c.to_json());
                 }
+                // the same scenario in an aged heap: the release_checks countdown expires on the 1st .. 4th
+                // tree-binned free of the scenario (the plain run above is the "countdown far away" case)
+                if c.loop_ops.is_empty() {
+                    let n_blocks = c.ops.iter().filter(|o| matches!(o, Op::Malloc { .. })).count();
+                    for v in 1..=n_blocks as u64 {
+                        let inf = run_with_countdown(&mut w, &c, n_blocks, v, (i / msh) % 64 == 0, false, &mut r);
+                        if inf.multi_release {
+                            r.outcome("multiseg:countdown-pass-released>=2-segments");
+                        }
+                    }
+                }
             }
             r
         }));
@@ -944,6 +1005,12 @@ pub fn placement(args: &Args) -> Report {
                 // the kind is known by construction; what the kernel saw confirms that the big request's mapping joined the segment
                 let joined = w.k.join_events.get(c.script.len() - 1).copied();
                 r.outcome(&format!("junction:{name}{}", if joined == Some(expect[&name]) { "" } else { ":MAPPING-DID-NOT-JOIN" }));
+                // aged heap: the countdown expires on the first / second tree-binned free after the big request
+                if c.ops.iter().any(|o| matches!(o, Op::Free { .. })) {
+                    for v in [1u64, 2] {
+                        run_with_countdown(&mut w, &c, c.seed.len() + 1, v, (i / jsh) % 800 == 0, false, &mut r);
+                    }
+                }
                 if i % 9973 == 0 {
                     r.sample(c.to_json());
                 }
@@ -1048,6 +1115,8 @@ pub fn oom_boundary_cases(th: bool) -> Vec<Case> {
                         loop_ops: vec![],
                         loop_max: 0,
                         post: vec![],
+                        countdown: None,
+                        countdown_brute: false,
                     });
                 }
             }
